@@ -17,6 +17,7 @@ def run(cx):
     hc.check_writer_passthrough(cx, "C02.R1", h)
     r2(cx)
     r2_upgrade_tail(cx)
+    r2_read_then_handle(cx)
     r3(cx)
 
 
@@ -153,6 +154,50 @@ def r2_upgrade_tail(cx):
         cx.check(not badp and bool(good_edges), "C02.R2", key, site,
                  "%d path(s) from handle()'s Ok edge block on the stream or leave the loop although an upgrade may just have happened with bytes still in the tail (e.g. blocks %s): those bytes never reach call_upgraded" % (len(badp), badp[0][:25] if badp else "-"),
                  note_ok="%d paths; waiting/leaving only behind `tail.is_empty()` or `no upgrade`" % len(paths), witness={"path": badp[0] if badp else None})
+
+
+def r2_read_then_handle(cx):
+    """a caller that feeds handle() from a stream in a loop hands every batch of received bytes to handle() before it waits for
+    more: no cycle read -> read avoids handle() except over the `nothing was read` edges (Err, Ok(0), empty buffer)"""
+    n = 0
+    for body in cx.mir.bodies(test=False):
+        if body.promoted is not None: continue
+        hs = [t for t in body.calls("=handle") if "ConnectionHandler" in (t.callee.path + (t.callee.trait or ""))]
+        if not hs: continue
+        cfg = Cfg(body); du = DefUse(body)
+        reads = [t for t in body.calls("=read", "=fill_buf", "=read_until", "=read_exact") if "RwLock" not in t.callee.path and "Mutex" not in t.callee.path]
+        for i, r in enumerate(reads):
+            if r.target is None: continue
+            fwd = cfg.reach(r.target)
+            loops = [h for h in hs if h.bb in fwd and h.target is not None and r.bb in cfg.reach(h.target)]
+            if not loops: continue
+            n += 1; cx.saw(body)
+            M = {r.dest.l}
+            ch = True
+            while ch:
+                ch = False
+                for st in body.stmts():
+                    if st.kind == "assign" and not st.lhs.p and st.rv == "use" and st.ops[0].place is not None and st.ops[0].place.l in M and st.lhs.l not in M:
+                        M.add(st.lhs.l); ch = True
+                for t in body.calls("=branch", "=unwrap", "=expect"):
+                    if t.args and t.args[0].place is not None and t.args[0].place.l in M and t.dest.l not in M: M.add(t.dest.l); ch = True
+            nothing = set()
+            for b in body.blocks:
+                if b.cleanup or b.term.kind != "switch": continue
+                c = switch_cond(body, du, b.term)
+                if c.kind == "discr" and c.place is not None and c.place.l in M:
+                    e = variant_edge(b.term, 1)
+                    if e: nothing.add(e)
+                elif c.kind == "field" and c.place.l in M and c.place.fields()[-1:] == ["0"] and not c.negated:
+                    for lab, dst in cfg.succ[b.idx]:
+                        if lab == 0: nothing.add((b.idx, lab, dst))
+                elif c.kind == "call" and c.term.callee.name == "is_empty" and c.term.args and c.term.args[0].place is not None and any(l in M for l in ref_chain(du, c.term.args[0].place.l)):
+                    te, fe = bool_edges(b.term, c); nothing.add(te)
+            back = cfg.reach(r.target, blocked_nodes={h.bb for h in hs}, blocked_edges=nothing)
+            cx.check(r.bb not in back, "C02.R2", "%s:%s:%s#%d:handled-before-next-read" % (body.pkg, body.path, r.callee.name, i), "%s %s" % (r.sp, body.path),
+                     "after this read delivered bytes the loop can come back to it without calling handle() on them: a request that is already complete is not answered until more bytes arrive (framing then depends on how the stream was cut)",
+                     note_ok="every cycle back to this read passes handle() or a nothing-was-read edge (%d such edges)" % len(nothing))
+    cx.floor("C02.R2", "read sites looping with handle()", n, 3)
 
 
 def tail_places(body, du, t):
